@@ -19,7 +19,8 @@ ASSUMPTIONS = [
     "the spelling of an address (quoted sheet, $, lower case, address objects) and multi-sheet workbooks are outside "
     "coq/Model/Trim.v (nodes are indices there): the spelling stream is judged by the oracle alone",
     "the trim-colb stream (whole-column reference S!B:B as a node of range kind, alias of the bounded range "
-    "node) is model-backed except for the survival of the reference node itself (repair 17855a0 is not in Trim.v)",
+    "node) is model-backed including the survival of the reference node (Model/TrimKeep.v trim_keepref = trim + "
+    "repair 17855a0; C08_keepref_same / C08_keepref_outputs_weak tie it to trim)",
 ]
 
 
@@ -276,11 +277,11 @@ def colb_stream(ctx, ExcelCompiler):
     single cells of column B).  Outputs = 1-2 formula cells, inputs = 1-2 constants among their ancestors (cells of
     column B: members of the whole-column range; cells of column A).  Legs: untrimmed, trimmed (before / after the
     first evaluate), trimmed + saved + loaded; 3 assignment rounds.  Oracle: every leg = untrimmed.  Model:
-    Model/Trim.v on the same case (S!B:B = a node of range kind, Model/GraphExpr.v FAlias): outputs of every round
-    on the trimmed machine, the surviving cells and the frozen formula cells; Model/Graph.v on the untrimmed rounds.
-    Model/Trim.v has no counterpart of repair 17855a0 (the reference cell of an unbounded range is kept whenever the
-    walk over the precedents reaches it; the machine deletes it when no input is below it and computes it again on
-    demand): the surviving cell sets are compared without the reference node."""
+    Model/TrimKeep.v trim_keepref on the same case (S!B:B = a node of range kind, Model/GraphExpr.v FAlias; trim_keepref
+    = Model/Trim.v trim + repair 17855a0: the reference cell of an unbounded range is kept whenever the walk over the
+    precedents walks into it — C08_keepref_same / C08_keepref_outputs_weak: same workbook, frozen cells, values and
+    outputs as trim): outputs of every round on the trimmed machine, the surviving cells INCLUDING the reference node
+    and the frozen formula cells; Model/Graph.v on the untrimmed rounds."""
     rng = ctx.rng
     batch = []
     for k in range(ctx.n(60, 600)):
@@ -356,10 +357,12 @@ def colb_stream(ctx, ExcelCompiler):
             batch.append((case, wb, ins, outs, early, rounds, per_round, kept, frozen, full_ops))
     if not ctx.model or not batch:
         return
-    calls = [trim_call(wb, ins, outs, early, rounds) for (_, wb, ins, outs, early, rounds, _, _, _, _) in batch]
+    calls = [trim_call(wb, ins, outs, early, rounds, entry='trimk')
+             for (_, wb, ins, outs, early, rounds, _, _, _, _) in batch]
     calls += [('history', [wb.wire(), [op for op, _ in ops]]) for (_, wb, _, _, _, _, _, _, _, ops) in batch]
     answers = ctx.model.batch(calls)
-    compared = dict(trim_cases=0, outputs=0, untrimmed_values=0, reference_kept_by_the_code_only=0)
+    compared = dict(trim_cases=0, outputs=0, untrimmed_values=0, reference_kept=0,
+                    reference_kept_not_below_an_input=0)
     for (case, wb, ins, outs, early, rounds, per_round, kept, frozen, ops), ans, hist in zip(
             batch, answers[:len(batch)], answers[len(batch):]):
         if not isinstance(ans, list) or len(ans) != 5 or ans[0] != 0:
@@ -369,11 +372,14 @@ def colb_stream(ctx, ExcelCompiler):
         compared['trim_cases'] += 1
         _, mkeptf, mfrozenf, _, mrounds = ans
         ref = wb.colref
-        mkept = [i for i, f in enumerate(mkeptf) if f and i != ref]
-        compared['reference_kept_by_the_code_only'] += (ref in kept and not mkeptf[ref])
-        if mkept != [i for i in kept if i != ref]:
+        mkept = [i for i, f in enumerate(mkeptf) if f]
+        if ref is not None and ref in kept:
+            compared['reference_kept'] += 1
+            compared['reference_kept_not_below_an_input'] += not any(i in ancestors(wb, ref) for i in ins)
+        if mkept != kept:
             ctx.divergence(dict(case, early=early), kept, mkept,
-                           'Model/Trim.v kept cells = cell_map after trim_graph (reference node S!B:B left out)')
+                           'Model/TrimKeep.v trim_keepref kept cells = cell_map after trim_graph '
+                           '(reference node S!B:B included)')
             continue
         mfrozen = [i for i, f in enumerate(mfrozenf) if f and wb.nodes[i]['kind'] == 'formula']
         if mfrozen != frozen:
@@ -759,9 +765,9 @@ def model_value(x):
     return trim(canon_model(dec_val(x)))
 
 
-def trim_call(wb, ins, outs, early, rounds):
+def trim_call(wb, ins, outs, early, rounds, entry='trim'):
     pre = [] if early else [[0, o] for o in outs]
-    return ('trim', [wb.wire(), pre, list(ins), list(outs),
+    return (entry, [wb.wire(), pre, list(ins), list(outs),
                      [[[i, enc_val(v)] for i, v in r.items()] for r in rounds]])
 
 
